@@ -7,6 +7,9 @@ Serializer call, strings hex-encoded UTF-8):
   ["nv",name,idx,variant,v] ["seq",len|null,[v..]] ["tup",len,[v..]] ["ts",name,len,[v..]]
   ["tv",name,idx,variant,len,[v..]] ["map",len|null,[[k,v]..]] ["st",name,len,[[field,v]..]]
   ["sv",name,idx,variant,len,[[field,v]..]]
+  ["cs",[fragment..]]            collect_str of a Display that writes these fragments
+  ["hr",v_human,v_compact]       a Serialize impl branching on is_human_readable()
+  ["net",kind,octets_hex,port]   std::net: kind v4 v6 ip4 ip6 sa4 sa6
 """
 import struct
 
@@ -118,8 +121,13 @@ class Gen:
 
     def leaf(self):
         r = self.rng
-        k = r.choice(["b", "i", "i", "f32", "f64", "c", "s", "s", "s", "y", "none", "unit", "us", "uv"])
+        k = r.choice(["b", "i", "i", "f32", "f64", "c", "s", "s", "s", "y", "none", "unit", "us", "uv",
+                      "cs", "cs", "net"])
         self.count("leaf:" + k)
+        if k == "cs":
+            return self.collect()
+        if k == "net":
+            return self.net()
         if k == "b":
             return ["b", r.random() < 0.5]
         if k == "i":
@@ -140,11 +148,47 @@ class Gen:
             return ["uv", hx(self.name()), r.randrange(0, 5), hx(self.string(8))]
         return [k]
 
+    def collect(self):
+        """a Display value handed over in fragments (empty ones, escapes and multi-byte included)"""
+        r = self.rng
+        n = r.choice([0, 1, 1, 2, 2, 3, 4, 6])
+        frags = []
+        for _ in range(n):
+            x = r.random()
+            if x < 0.1:
+                frags.append("")
+            elif x < 0.5:
+                frags.append(r.choice(["-", ":", ".", "T", "/", "2024", "01", "v", "+"]) if r.random() < 0.5
+                             else self.string(6))
+            else:
+                frags.append(self.string(r.choice([2, 4, 10, 30])))
+        return ["cs", [hx(f) for f in frags]]
+
+    def net(self):
+        r = self.rng
+        kind = r.choice(["v4", "v6", "ip4", "ip6", "sa4", "sa6"])
+        if kind.endswith("4"):
+            o = r.choice([bytes([192, 168, 1, 20]), bytes([0, 0, 0, 0]), bytes([255, 255, 255, 255]),
+                          bytes(r.randrange(256) for _ in range(4))])
+        else:
+            o = r.choice([bytes(16), bytes(15) + b"\x01", bytes(10) + b"\xff\xff\xc0\xa8\x01\x14",
+                          bytes(r.randrange(256) for _ in range(16)),
+                          bytes(r.choice([0, 0, r.randrange(256)]) for _ in range(16))])
+        port = r.choice([0, 80, 65535, r.randrange(65536)]) if kind.startswith("sa") else 0
+        return ["net", kind, o.hex(), port]
+
     # ------------------------------------------------------------ keys
     def good_key(self, depth=0):
         r = self.rng
-        k = r.choice(["s", "s", "s", "c", "i", "i", "uv", "ns"])
+        k = r.choice(["s", "s", "s", "c", "i", "i", "uv", "ns", "cs", "cs", "net", "hr"])
         self.count("key:" + k)
+        if k == "cs":
+            return self.collect()
+        if k == "net":
+            return self.net()
+        if k == "hr":
+            return ["hr", self.good_key(depth + 1) if depth < 2 else ["s", hx("h")],
+                    r.choice([["unit"], ["tup", 1, [["i", "u8", "1"]]], ["s", hx("c")]])]
         if k == "s":
             return ["s", hx(self.string())]
         if k == "c":
@@ -160,8 +204,10 @@ class Gen:
     def bad_key(self):
         r = self.rng
         k = r.choice(["b", "f32", "f64", "y", "none", "unit", "us", "some", "nv", "seq", "tup", "ts",
-                      "tv", "map", "st", "sv", "ns-bad"])
+                      "tv", "map", "st", "sv", "ns-bad", "hr-bad"])
         self.count("badkey:" + k)
+        if k == "hr-bad":
+            return ["hr", ["unit"], ["s", hx("fine-if-compact")]]
         if k == "b":
             return ["b", r.random() < 0.5]
         if k == "f32":
@@ -210,8 +256,10 @@ class Gen:
         r = self.rng
         if depth <= 0 or r.random() < 0.25:
             return self.leaf()
-        k = r.choice(["some", "ns", "nv", "seq", "seq", "tup", "ts", "tv", "map", "map", "st", "st", "sv"])
+        k = r.choice(["some", "ns", "nv", "seq", "seq", "tup", "ts", "tv", "map", "map", "st", "st", "sv", "hr"])
         self.count("node:" + k)
+        if k == "hr":
+            return ["hr", self.tree(depth - 1, bad_keys, width), self.tree(min(depth - 1, 1), 0.0, 2)]
         sub = lambda: self.tree(depth - 1, bad_keys, width)
         n = r.choice([0, 1, 1, 2, 2, 3, width])
         if k == "some":
@@ -262,6 +310,8 @@ def children(t):
         return [(kv, 1) for kv in t[3]]
     if k == "sv":
         return [(kv, 1) for kv in t[5]]
+    if k == "hr":
+        return [(t, 1), (t, 2)]
     return []
 
 
@@ -325,14 +375,18 @@ def has_bad_key(t):
         return any(has_bad_key(x) for _, x in t[3])
     if k == "sv":
         return any(has_bad_key(x) for _, x in t[5])
+    if k == "hr":
+        return has_bad_key(t[1])
     return False
 
 
 def key_ok(t):
-    if t[0] in ("s", "c", "i", "uv"):
+    if t[0] in ("s", "c", "i", "uv", "cs", "net"):
         return True
     if t[0] == "ns":
         return key_ok(t[2])
+    if t[0] == "hr":
+        return key_ok(t[1])
     return False
 
 
@@ -357,6 +411,8 @@ def size(t):
         kids = [x for _, x in t[3]]
     elif k == "sv":
         kids = [x for _, x in t[5]]
+    elif k == "hr":
+        kids = [t[1], t[2]]
     return 1 + sum(size(x) for x in kids)
 
 
@@ -431,7 +487,36 @@ def coq_sval(t, ftoks):
         return "(SStruct %s %d %s)" % (cb(t[1]), t[2], cf(t[3]))
     if k == "sv":
         return "(SStructVariant %s %d %s %d %s)" % (cb(t[1]), t[2], cb(t[3]), t[4], cf(t[5]))
+    if k == "cs":
+        return "(SCollectStr [%s])" % "; ".join(cb(f) for f in t[1])
+    if k == "hr":
+        return "(SHumanReadable %s %s)" % (coq_sval(t[1], ftoks), coq_sval(t[2], ftoks))
+    if k == "net":
+        return coq_net(t, ftoks)
     raise ValueError("bad tree tag %r" % k)
+
+
+def coq_net(t, ftoks):
+    """The calls serde's impls for the std::net types issue (serde_core ser/impls.rs:736-905): the
+    Display text through serialize_str when is_human_readable(), else octet tuples, (ip, port)
+    tuples and V4/V6 newtype variants; the enum impls delegate to the inner type, which asks again."""
+    _, kind, octs, port = t
+    tok = ftoks.get("net:%s:%s:%d" % (kind, octs, port))
+    if tok is None:
+        raise KeyError("no Display text for %r" % (t,))
+    o = bytes.fromhex(octs)
+    tup = "(STuple %d [%s])" % (len(o), "; ".join("SInt U8 (%d)%%Z" % b for b in o))
+    text = "(SStr %s)" % cb(tok)
+    six = kind.endswith("6")
+    var = "%d %s" % (1 if six else 0, cb(hx("V6" if six else "V4")))
+    if kind in ("v4", "v6"):
+        return "(SHumanReadable %s %s)" % (text, tup)
+    if kind in ("ip4", "ip6"):
+        inner = "(SHumanReadable %s %s)" % (text, tup)
+        return "(SHumanReadable %s (SNewtypeVariant %s %s %s))" % (inner, cb(hx("IpAddr")), var, inner)
+    pair = "(STuple 2 [%s; SInt U16 (%d)%%Z])" % (tup, port)
+    inner = "(SHumanReadable %s %s)" % (text, pair)
+    return "(SHumanReadable %s (SNewtypeVariant %s %s %s))" % (inner, cb(hx("SocketAddr")), var, inner)
 
 
 def copt(hexs):
@@ -442,6 +527,8 @@ def float_roundtrips(ftoks):
     """Sanity of the opaque tokens: each finite token parses back to the float it stands for."""
     bad = []
     for key, tok in ftoks.items():
+        if key.startswith("net:"):
+            continue
         kind, bits = key.split(":")
         bits = int(bits)
         text = bytes.fromhex(tok).decode()
